@@ -212,6 +212,11 @@ func bodyC03(c c03Case, x *vkit.Ctx) {
 		spins := 0
 		for !ok() {
 			if time.Now().After(deadline) {
+				// (a stall that ended just now looks the same: look once more)
+				if time.Sleep(25 * time.Millisecond); ok() {
+					x.Inconclusive("refutation arrived right after the cap")
+					return false
+				}
 				missing(x, mon, "claim-not-refuted",
 					"step %d (%s): claim about self at Lamport time %d (strict=%v) was newer than self's status time, but after %v the queued self joins are %v and the status time is %d",
 					si, what, claim, strict, waitCap, selfJoins(), statusLT())
